@@ -41,6 +41,14 @@ def carried(section, key, v, xp=False):
 _MEMO = {}
 
 
+def _gap(draw, vals):
+    """now and then one absent value inside a 4-per-line list of primary variables (legal: the field is blank); never the
+    last value of the list and never the last field of a line that another line follows (the reader joins the lines
+    after dropping each line's trailing blanks)"""
+    ok = [i for i in range(len(vals) - 1) if i % 4 != 3]
+    if ok and draw(st.integers(0, 5)) == 0: vals[draw(st.sampled_from(ok))] = None
+
+
 def _memo(key, make):
     """strategies are built once and reused: constructing them inside a composite costs far more than drawing"""
     if key not in _MEMO: _MEMO[key] = make()
@@ -162,6 +170,7 @@ def model(draw, flavour=None, max_blocks=10):
         p['timestep'] = [dt]
     ninc = draw(SF([0, 1, 2, 3, 4, 5, 8, 9, 12]))
     p['default_incons'] = [draw(_memo('incval', lambda: st.one_of(pos(1e-3, 1e8), SF([0.0, 1.013e5, 20.0, -1.5])))) for _ in range(ninc)]
+    _gap(draw, p['default_incons'])
     m['param'] = p
     if draw(I(0, 3)) == 0:
         m['momop'] = ''.join(str(draw(I(0, 9))) for _ in range(21))
@@ -317,12 +326,14 @@ def model(draw, flavour=None, max_blocks=10):
         for n in sel:
             r = {'block': n, 'nseq': None, 'nadd': None, 'porosity': draw(opt(pos(1e-3, 1.0), 2)),
                  'vars': [draw(_memo('incval', lambda: st.one_of(pos(1e-3, 1e8), SF([0.0, 1.013e5, 20.0, -1.5])))) for _ in range(nv)]}
+            _gap(draw, r['vars'])
             if draw(I(0, 5)) == 0: r['nseq'], r['nadd'] = draw(I(1, 99)), draw(I(1, 99))
             inc.append(r)
         m['incon'] = inc; present.add('INCON')
     if rnames and draw(I(0, 3)) == 0:
         m['indom'] = [{'rock': r, 'vars': [draw(pos(1e-3, 1e8)) for _ in range(draw(I(1, 4)))]}
                       for r in draw(st.lists(SF(rnames), min_size=1, max_size=3, unique=True))]
+        for r in m['indom']: _gap(draw, r['vars'])
         present.add('INDOM')
     from refs.t2_ref import KEYWORDS
     canonical = [k for k in KEYWORDS if k in present]
